@@ -632,6 +632,17 @@ func main() {
 	}
 	wg.Wait()
 	for i, dn := range dnBoundary {
+		if i < 6 {
+			// binary parts across the sizes where the hex-digit count needs 5 and 6 decimal digits
+			// and passes 65535 / 131071
+			for _, n := range []int{4999, 5000, 32767, 32768, 49999, 50000, 65535, 65536, 70001} {
+				big := make([]byte, n)
+				for k := range big {
+					big[k] = byte(k*7 + i)
+				}
+				checkDN(dn, big, false)
+			}
+		}
 		checkDN(dn, []byte("Hello"), false)
 		checkDN(dn, nil, false)
 		checkDN(dn, []byte{byte(i), 0x3A, 0x00, 0xFF}, false)
